@@ -44,6 +44,7 @@ Theorem sqrtmp_3mod4 (a p b : Z) : 0 < p -> p mod 4 = 3 -> a <> 0 -> powm a ((p 
   exists r, sqrtmp_with a p b = SqOk r /\ 0 <= r < p /\ (r * r) mod p = a mod p.
 Proof.
   intros Hp H3 Ha HQ. unfold sqrtmp_with.
+  destruct (Z.eqb_spec p 2) as [E2|_]; [rewrite E2 in H3; discriminate H3|].
   destruct (Z.eqb_spec a 0); [contradiction|]. rewrite H3. cbn [Z.eqb Pos.eqb].
   eexists. split; [reflexivity|]. split; [apply powm_range; divlia|].
   rewrite sq_powm by divlia.
@@ -57,6 +58,7 @@ Theorem sqrtmp_5mod8 (a p b : Z) : prime p -> p mod 8 = 5 -> a <> 0 ->
   exists r, sqrtmp_with a p b = SqOk r /\ 0 <= r < p /\ (r * r) mod p = a mod p.
 Proof.
   intros Pp H5 Ha HQ HN. pose proof (prime_ge_2 _ Pp) as P2. unfold sqrtmp_with.
+  destruct (Z.eqb_spec p 2) as [E2|_]; [rewrite E2 in H5; discriminate H5|].
   destruct (Z.eqb_spec a 0); [contradiction|].
   assert (E4 : p mod 4 = 1) by (clear - H5; divlia).
   assert (P3 : p <> 2) by (intros ->; discriminate H5).
@@ -229,9 +231,12 @@ Corollary sqrt_ok_5mod8 (a p b : Z) : prime p -> p mod 8 = 5 -> a <> 0 ->
   powm a ((p - 1) / 2) p = 1 -> powm b ((p - 1) / 2) p = p - 1 -> sqrt_ok a p b.
 Proof. intros. now apply sqrtmp_5mod8. Qed.
 
-(* p = 2: the model of the code never returns (both loops need s > 0) *)
-Lemma sqrtmp_modulus_2_diverges (b : Z) : sqrtmp_with 1 2 b = SqDiverge.
-Proof. reflexivity. Qed.
+(* p = 2: answered by the guard (every residue is its own square root), also for a = 0 *)
+Lemma sqrtmp_modulus_2 (a b : Z) : exists r, sqrtmp_with a 2 b = SqOk r /\ 0 <= r < 2 /\ (r * r) mod 2 = a mod 2.
+Proof.
+  unfold sqrtmp_with. cbn [Z.eqb Pos.eqb]. eexists. split; [reflexivity|].
+  rewrite (Zmod_odd a). destruct (Z.odd a); cbn; lia.
+Qed.
 
 (* ---- p = 1 (mod 8): the two loops (Tonelli-Shanks in the formulation of the code) ------------------------------- *)
 Section TS.
@@ -325,7 +330,8 @@ Section TS.
   Theorem sqrtmp_1mod8 : a <> 0 ->
     exists r, sqrtmp_with a p b = SqOk r /\ 0 <= r < p /\ (r * r) mod p = a mod p.
   Proof.
-    intros Ha. unfold sqrtmp_with. destruct (Z.eqb_spec a 0); [contradiction|].
+    intros Ha. unfold sqrtmp_with. destruct (Z.eqb_spec p 2) as [E2|_]; [lia|].
+    destruct (Z.eqb_spec a 0); [contradiction|].
     assert (E4 : p mod 4 = 1) by (clear - P8; divlia). rewrite E4, P8. cbn [Z.eqb Pos.eqb].
     set (s0 := (p - 1) / 4).
     assert (Hs0 : 0 < s0 < p) by (unfold s0; clear - P2 P8; divlia).
@@ -359,11 +365,12 @@ Section TS.
   Qed.
 End TS.
 
-(* every odd prime, every residue class modulo 8, any 2-adic order of p - 1 *)
-Theorem sqrtmp_ok (a p b : Z) : prime p -> p <> 2 -> a <> 0 ->
+(* every prime (2 through the guard; odd primes: every residue class modulo 8, any 2-adic order of p - 1) *)
+Theorem sqrtmp_ok (a p b : Z) : prime p -> a <> 0 ->
   powm a ((p - 1) / 2) p = 1 -> powm b ((p - 1) / 2) p = p - 1 -> sqrt_ok a p b.
 Proof.
-  intros Pp N2 Ha HQ HN. pose proof (prime_ge_2 _ Pp) as P2.
+  intros Pp Ha HQ HN. pose proof (prime_ge_2 _ Pp) as P2.
+  destruct (Z.eq_dec p 2) as [->|N2]; [apply sqrtmp_modulus_2|].
   assert (Odd : p mod 2 = 1).
   { destruct (Z.eq_dec (p mod 2) 0) as [E|E]; [|divlia].
     apply Z.mod_divide in E; [|lia]. apply (prime_divisors p Pp) in E. lia. }
@@ -375,15 +382,15 @@ Proof.
   - apply sqrtmp_3mod4; try assumption; [lia|clear - C; divlia].
 Qed.
 
-Corollary sqrtmn_two_primes_ok (a p q u v bp bq : Z) : prime p -> prime q -> p <> 2 -> q <> 2 -> a <> 0 ->
+Corollary sqrtmn_two_primes_ok (a p q u v bp bq : Z) : prime p -> prime q -> a <> 0 ->
   u * p + v * q = 1 ->
   powm a ((p - 1) / 2) p = 1 -> powm bp ((p - 1) / 2) p = p - 1 ->
   powm a ((q - 1) / 2) q = 1 -> powm bq ((q - 1) / 2) q = q - 1 ->
   (exists r, sqrtmn_all_with a p q (p * q) u v bp bq = inl (Some r) /\ all_square a (p * q) r) /\
   (exists r, sqrtmn_with a p q (p * q) u v bp bq = SqOk r /\ (r * r) mod (p * q) = a mod (p * q)).
 Proof.
-  intros Pp Pq Np Nq Ha B H1 H2 H3 H4.
+  intros Pp Pq Ha B H1 H2 H3 H4.
   pose proof (prime_ge_2 _ Pp). pose proof (prime_ge_2 _ Pq).
-  pose proof (sqrtmp_ok a p bp Pp Np Ha H1 H2) as Op. pose proof (sqrtmp_ok a q bq Pq Nq Ha H3 H4) as Oq.
+  pose proof (sqrtmp_ok a p bp Pp Ha H1 H2) as Op. pose proof (sqrtmp_ok a q bq Pq Ha H3 H4) as Oq.
   split; [apply sqrtmn_all_ok|apply sqrtmn_ok]; auto; lia.
 Qed.
